@@ -141,84 +141,108 @@ def shut(index, rep):
 def wire(index, rep, flow):
     rule = "C03.WIRE"
     ras = index.func(RUN, "ScenarioRunner.run_and_analyze_scenario")
-    want = {"assert_feed_used_below_feed_demand": "src:get_feed_usage", "assert_biofuels_used_below_biofuels_demand": "src:get_biofuel_usage"}
-    seen = {}
-    inl_ras = Inliner(ras)
-    for c in walk_no_nested(ras):
-        if isinstance(c, ast.Call) and isinstance(c.func, ast.Attribute) and c.func.attr in want:
-            rnd = [k.value.value for k in c.keywords if k.arg == "round" and isinstance(k.value, ast.Constant)]
-            rnd = rnd[0] if rnd else None
-            org = flow.origin(ras, c.args[0], before=c.lineno)
-            res = inl_ras.at(c).src(c.args[1]) if len(c.args) > 1 else "?"   # the definition reaching this call
-            seen.setdefault(c.func.attr, {})[rnd] = (org, res, c)
-            rep.check(org == {want[c.func.attr]}, rule, f"{c.func.attr}[round {rnd}]:demand-provenance",
-                      f"the demand passed to the validator originates from {sorted(org)}, expected {want[c.func.attr]} "
-                      "(feed and biofuel demand crossed somewhere along the tuple hand-offs)", loc=loc(RUN, c))
-            rep.check(res.startswith(f"self.run_round_{rnd}("), rule, f"{c.func.attr}[round {rnd}]:results-of-that-round",
-                      f"round {rnd} is validated on {res[:60]}", loc=loc(RUN, c))
-    for name in want:
-        rounds = set(seen.get(name, {}))
-        rep.check(rounds == {1, 2, 3}, rule, f"{name}:every-round", f"use is validated against demand only in rounds {sorted(map(str, rounds))}",
-                  loc=loc(RUN, ras))
-        if 3 in seen.get(name, {}):
-            c = seen[name][3][2]
-            st = c
-            while not isinstance(getattr(st, "_parent", None), ast.FunctionDef):
-                st = st._parent
-            rep.check(st in ras.body, rule, f"{name}[round 3]:unconditional", "the final round's check is conditional", loc=loc(RUN, c))
-    # placement: round-k check follows the call that produced round k's results
-    def line_of(text):
-        ls = [s.lineno for s in walk_no_nested(ras) if isinstance(s, ast.Assign) and text in norm_src(s.value)]
-        return min(ls) if ls else None
+    # the validators are found by what they do: a Validator routine called with a `round` here, holding (helpers read through) an assertion
+    #     all(-1e-6 < (DEMAND - Validator.sum_<feed|biofuel>_sources(RESULTS) in monthly units x (1 - epsilon)).kcals)
+    # on two of its parameters - one routine per use, or one routine checking both
+    KIND = {"sum_feed_sources": ("feed", "src:get_feed_usage"), "sum_biofuel_sources": ("biofuel", "src:get_biofuel_usage")}
+    from .core import bind_args as _baw
+    vmethods = index.methods(VAL, "Validator")
 
-    for name in want:
-        for rnd, producer in ((1, "self.run_round_1("), (2, "self.run_round_2("), (3, "self.run_round_3(")):
-            if rnd in seen.get(name, {}):
-                c = seen[name][rnd][2]
-                pl = line_of(producer)
-                rep.check(pl is not None and pl < c.lineno, rule, f"{name}[round {rnd}]:after-the-round",
-                          "the validator is called before the round it validates", loc=loc(RUN, c))
-    # the validators raise and compare the right way round
-    for name, summer, attrs in (("assert_feed_used_below_feed_demand", "sum_feed_sources",
-                                 ["cell_sugar_feed", "scp_feed", "seaweed_feed", "outdoor_crops_feed", "stored_food_feed"]),
-                                ("assert_biofuels_used_below_biofuels_demand", "sum_biofuel_sources",
-                                 ["cell_sugar_biofuels", "scp_biofuels", "seaweed_biofuels", "outdoor_crops_biofuels", "stored_food_biofuels"])):
-        fn0 = index.func(VAL, "Validator." + name)
-        fn = index.flat_func(VAL, "Validator." + name, keep=("sum_feed_sources", "sum_biofuel_sources"))   # a shared checking helper is read through
-        demand = fn0.args.args[0].arg
-        res = fn0.args.args[1].arg
+    def validator_checks(name):
+        fn0 = vmethods[name]
+        fn = index.flat_func(VAL, "Validator." + name, keep=tuple(KIND))
+        params = [a.arg for a in fn0.args.args]
         eps_default = None
-        names = [a.arg for a in fn0.args.args]
-        if "epsilon" in names:
-            dflt = fn0.args.defaults[names.index("epsilon") - (len(names) - len(fn0.args.defaults))]
-            eps_default = dflt.value if isinstance(dflt, ast.Constant) else None
+        if "epsilon" in params and fn0.args.defaults:
+            i_ = params.index("epsilon") - (len(params) - len(fn0.args.defaults))
+            if i_ >= 0 and isinstance(fn0.args.defaults[i_], ast.Constant):
+                eps_default = fn0.args.defaults[i_].value
         inl_v = Inliner(fn)
-        asserts = [a for a in walk_no_nested(fn) if isinstance(a, ast.Assert)]
-        want_total = f"Validator.{summer}({res})"
-        want_red = (f"{want_total}.in_units_bil_kcals_thou_tons_thou_tons_per_month()*(1-epsilon)",
-                    f"(1-epsilon)*{want_total}.in_units_bil_kcals_thou_tons_thou_tons_per_month()")
-        ok = len(asserts) == 1
-        if ok:
-            # all(-1e-06 < (demand - reduced use).kcals)   (comparisons are read in canonical orientation, see canon.py)
-            t = asserts[0].test
+        out = []
+        for a_ in [x for x in walk_no_nested(fn) if isinstance(x, ast.Assert)]:
+            t = a_.test
             inner = None
             if isinstance(t, ast.Call) and dotted(t.func) == "np.all" and len(t.args) == 1:
                 inner = t.args[0]
             elif isinstance(t, ast.Call) and isinstance(t.func, ast.Attribute) and t.func.attr == "all" and not t.args:
                 inner = t.func.value
-            ok = False
-            if isinstance(inner, ast.Compare) and len(inner.ops) == 1 and isinstance(inner.ops[0], (ast.Lt, ast.LtE)):
-                try:
-                    bound = float(ast.literal_eval(inner.left))
-                except Exception:
-                    bound = None
-                e_ = inl_v.at(asserts[0]).expr(inner.comparators[0])
-                okd = isinstance(e_, ast.Attribute) and e_.attr == "kcals" and isinstance(e_.value, ast.BinOp) and isinstance(e_.value.op, ast.Sub) \
-                    and norm_src(e_.value.left) == demand and norm_src(e_.value.right).replace(" ", "") in want_red
-                ok = bound is not None and -1e-6 <= bound <= 0 and okd
-        rep.check(ok and eps_default is not None and eps_default <= 1e-4, rule, f"{name}:raises-on-excess",
-                  "the validator no longer asserts  demand - used x (1 - eps) > -1e-6  (eps <= 1e-4) on the round's total use: an excess would "
-                  "pass silently", loc=loc(VAL, fn))
+            if not (isinstance(inner, ast.Compare) and len(inner.ops) == 1 and isinstance(inner.ops[0], (ast.Lt, ast.LtE))):
+                continue
+            try:
+                bound = float(ast.literal_eval(inner.left))
+            except Exception:
+                continue
+            e_ = inl_v.at(a_).expr(inner.comparators[0])
+            if not (isinstance(e_, ast.Attribute) and e_.attr == "kcals" and isinstance(e_.value, ast.BinOp) and isinstance(e_.value.op, ast.Sub)):
+                continue
+            demand = norm_src(e_.value.left)
+            used = norm_src(e_.value.right).replace(" ", "")
+            for summer, (kind, src_) in KIND.items():
+                for res in params:
+                    tot = f"Validator.{summer}({res})"
+                    if used in (f"{tot}.in_units_bil_kcals_thou_tons_thou_tons_per_month()*(1-epsilon)",
+                                f"(1-epsilon)*{tot}.in_units_bil_kcals_thou_tons_thou_tons_per_month()") and demand in params:
+                        out.append(dict(kind=kind, src=src_, demand=demand, results=res, ok=-1e-6 <= bound <= 0 and eps_default is not None
+                                        and eps_default <= 1e-4, fn=fn0))
+        return out
+
+    seen = {}
+    inl_ras = Inliner(ras)
+    called = {}
+    for c in walk_no_nested(ras):
+        if isinstance(c, ast.Call) and isinstance(c.func, ast.Attribute) and dotted(c.func.value) == "Validator" and c.func.attr in vmethods \
+                and any(k.arg == "round" for k in c.keywords):
+            called.setdefault(c.func.attr, []).append(c)
+    checks_of = {n_: validator_checks(n_) for n_ in called}
+    for name, calls in called.items():
+        for c in calls:
+            rnd = [k.value.value for k in c.keywords if k.arg == "round" and isinstance(k.value, ast.Constant)]
+            rnd = rnd[0] if rnd else None
+            bound_ = _baw(c, vmethods[name], method=False)
+            for chk in checks_of[name]:
+                kind = chk["kind"]
+                tag = f"{kind}-use below {kind} demand"
+                d_e, r_e = bound_.get(chk["demand"]), bound_.get(chk["results"])
+                org = flow.origin(ras, d_e, before=c.lineno) if d_e is not None else {"?"}
+                res = inl_ras.at(c).src(r_e) if r_e is not None else "?"   # the definition reaching this call
+                seen.setdefault(kind, {})[rnd] = (org, res, c)
+                rep.check(org == {chk["src"]}, rule, f"{tag}[round {rnd}]:demand-provenance",
+                          f"the demand passed to the validator originates from {sorted(org)}, expected {chk['src']} "
+                          "(feed and biofuel demand crossed somewhere along the tuple hand-offs)", loc=loc(RUN, c))
+                rep.check(res.startswith(f"self.run_round_{rnd}("), rule, f"{tag}[round {rnd}]:results-of-that-round",
+                          f"round {rnd} is validated on {res[:60]}", loc=loc(RUN, c))
+    for kind in ("feed", "biofuel"):
+        tag = f"{kind}-use below {kind} demand"
+        rounds = set(seen.get(kind, {}))
+        rep.check(rounds == {1, 2, 3}, rule, f"{tag}:every-round", f"use is validated against demand only in rounds {sorted(map(str, rounds))}",
+                  loc=loc(RUN, ras))
+        if 3 in seen.get(kind, {}):
+            c = seen[kind][3][2]
+            st = c
+            while not isinstance(getattr(st, "_parent", None), ast.FunctionDef):
+                st = st._parent
+            rep.check(st in ras.body, rule, f"{tag}[round 3]:unconditional", "the final round's check is conditional", loc=loc(RUN, c))
+    # placement: round-k check follows the call that produced round k's results
+    def line_of(text):
+        ls = [s.lineno for s in walk_no_nested(ras) if isinstance(s, ast.Assign) and text in norm_src(s.value)]
+        return min(ls) if ls else None
+
+    for kind in ("feed", "biofuel"):
+        tag = f"{kind}-use below {kind} demand"
+        for rnd, producer in ((1, "self.run_round_1("), (2, "self.run_round_2("), (3, "self.run_round_3(")):
+            if rnd in seen.get(kind, {}):
+                c = seen[kind][rnd][2]
+                pl = line_of(producer)
+                rep.check(pl is not None and pl < c.lineno, rule, f"{tag}[round {rnd}]:after-the-round",
+                          "the validator is called before the round it validates", loc=loc(RUN, c))
+    # the validators raise and compare the right way round
+    for kind, summer, attrs in (("feed", "sum_feed_sources", ["cell_sugar_feed", "scp_feed", "seaweed_feed", "outdoor_crops_feed", "stored_food_feed"]),
+                                ("biofuel", "sum_biofuel_sources",
+                                 ["cell_sugar_biofuels", "scp_biofuels", "seaweed_biofuels", "outdoor_crops_biofuels", "stored_food_biofuels"])):
+        chks = [ch for n_ in checks_of for ch in checks_of[n_] if ch["kind"] == kind]
+        rep.check(bool(chks) and all(ch["ok"] for ch in chks), rule, f"{kind}-use below {kind} demand:raises-on-excess",
+                  "no validator called per round asserts  demand - used x (1 - eps) > -1e-6  (eps <= 1e-4) on the round's total use: an excess would "
+                  "pass silently", loc=loc(VAL, chks[0]["fn"]) if chks else VAL)
         sf = index.func(VAL, "Validator." + summer)
         lists = [[str_const(e) for e in n.elts] for n in ast.walk(sf) if isinstance(n, ast.List) and n.elts and all(str_const(e) for e in n.elts)]
         rep.check(sorted(attrs) in [sorted(l) for l in lists], rule, f"{summer}:five-sources",
